@@ -80,6 +80,25 @@ class ForkCtl:
                 self.alive.value -= 1
             os._exit(0)
 
+    def kill_children(self):
+        """Deadline: stop every forked explorer that has not reported (they would otherwise keep the CPUs busy as orphans).
+        New explorers may still be forked while we kill, so scan until no live one is left."""
+        import signal
+        for _ in range(50):
+            names = set(os.listdir(self.scratch))
+            live = 0
+            for name in names:
+                if not name.startswith('pid-') or f'done-{name[4:]}' in names:
+                    continue
+                try:
+                    os.kill(int(name[4:]), signal.SIGKILL)
+                    live += 1
+                except (ProcessLookupError, PermissionError):
+                    pass
+            if not live:
+                break
+            time.sleep(0.1)
+
     def _reap_dead(self):
         """A forked explorer that was killed (OOM, segfault) can neither report nor release its CPU token: account for it."""
         names = set(os.listdir(self.scratch))
@@ -117,7 +136,8 @@ class ForkCtl:
                 with self.alive.get_lock():
                     if self.alive.value <= 0:
                         break
-                if deadline is not None and time.time() > deadline + 60:
+                if deadline is not None and time.time() > deadline + 30:
+                    self.kill_children()
                     return None
                 if time.time() - last_scan > 2.0:
                     last_scan = time.time()
